@@ -145,20 +145,20 @@ def ok_validate(s, v):
 
 
 def path_items(path):
-    return [x for x in path]
+    return [op.operand for op in path]
 
 
 def walk(root, path):
     """Follow a PathHolder from the root value (own walker, does not use th.get)."""
     cur = root
-    for step in path:
+    for step in path_items(path):
         cur = cur[step]
     return cur
 
 
 def render_path(path, root="_"):
     s = root
-    for step in path:
+    for step in path_items(path):
         s += "[%r]" % (step,)
     return s
 
@@ -442,3 +442,204 @@ UUID_VALUES = UUIDS4 + UUID_OTHER + ("8a2f1d0c-5b7e-4c3a-9f10-2d4e6a8b0c1e", Non
 DATETIMES = (datetime(2020, 1, 2, 3, 4, 5), datetime(1999, 12, 31, 23, 59, 59, 999999))
 DATES = (date(2020, 1, 2), date(1999, 12, 31))
 DT_VALUES = DATETIMES + DATES + ("2020-01-02", None, 0)
+
+
+# --------------------------------------------------------------------------- C03: error truth
+
+_KIND_TYPE = {"none": type(None), "bool": bool, "int": int, "float": float, "str": str, "bytes": bytes,
+              "list": list, "list_t": list, "list_e": list, "dict": dict, "uuid4": UUID,
+              "datetime": datetime, "date": date}
+
+
+def _strip_alias(spec):
+    while spec is not None and spec[0] == "alias":
+        spec = spec[2]
+    return spec
+
+
+def spec_at(spec, root, steps):
+    """The spec node that governs the sub-value reached by `steps`, or None when the position is
+    governed by a window/alternative choice (contains-lists, any) and hence not unique."""
+    cur, val = _strip_alias(spec), root
+    for step in steps:
+        k = cur[0]
+        nxt = None
+        if k == "dict" and cur[1] is not None:
+            for key, opt, sub in cur[1]:
+                if key == step:
+                    nxt = sub
+        elif k == "list_t":
+            nxt = cur[1]
+        elif k == "list_e":
+            els = cur[1]
+            if len(els) > 2 and els[0] is ... and els[-1] is ...:
+                nxt = None
+            elif len(els) >= 2 and els[-1] is ...:
+                body = els[:-1]
+                nxt = body[step] if 0 <= step < len(body) else None
+            elif len(els) >= 1 and els[0] is ...:
+                body = els[1:]
+                j = step - max(0, len(val) - len(body))
+                nxt = body[j] if 0 <= j < len(body) else None
+            else:
+                nxt = els[step] if 0 <= step < len(els) else None
+        if nxt is None:
+            return None
+        cur = _strip_alias(nxt)
+        val = val[step]
+    return cur
+
+
+def error_problem(spec, root, e, fmt=None):
+    """'' when error `e` (from validating `root` against the schema of `spec`) is true, located
+    and rendered as property C03 demands; otherwise a short description of what is wrong."""
+    name = type(e).__name__
+    steps = path_items(e.path)
+    try:
+        sub = walk(root, e.path)
+    except (KeyError, IndexError, TypeError):
+        return name + ": path does not resolve"
+    if sub is not e.actual_value:
+        return name + ": path does not reach the reported value"
+    node = spec_at(spec, root, steps)
+    lens = node[2] if node is not None and node[0] in ("list", "list_t", "list_e") else \
+        (node[2] if node is not None and node[0] == "str" else None)
+    # ---- the stated fact, from the error's own fields
+    if isinstance(e, VE.TypeValidationError):
+        if isinstance(sub, e.expected_type):
+            return name + ": value has the expected type"
+        if node is not None and node[0] in _KIND_TYPE and e.expected_type is not _KIND_TYPE[node[0]]:
+            return name + ": expected_type is not the declared type"
+    elif isinstance(e, VE.ValueValidationError):
+        if node is not None and node[0] == "float":
+            if conforms(("float", node[1], Nil, Nil, node[4]), sub):
+                return name + ": float value matches"
+        elif not (sub != e.expected_value):
+            return name + ": values are equal"
+        if node is not None and node[0] in ("bool", "int", "float", "str", "bytes", "uuid4", "datetime", "date"):
+            if node[1] is Nil or e.expected_value is not node[1]:
+                return name + ": expected_value is not the declared value"
+    elif isinstance(e, VE.MinValueValidationError):
+        if not (sub < e.min_value):
+            return name + ": value is not below min"
+        if node is not None and (node[0] not in ("int", "float") or e.min_value is not node[2]):
+            return name + ": min_value is not the declared min"
+    elif isinstance(e, VE.MaxValueValidationError):
+        if not (sub > e.max_value):
+            return name + ": value is not above max"
+        if node is not None and (node[0] not in ("int", "float") or e.max_value is not node[3]):
+            return name + ": max_value is not the declared max"
+    elif isinstance(e, VE.LengthValidationError):
+        if not (len(sub) != e.length):
+            return name + ": length is as declared"
+        if lens is not None and e.length is not lens[0]:
+            return name + ": length is not the declared len"
+    elif isinstance(e, VE.MinLengthValidationError):
+        if not (len(sub) < e.min_length):
+            return name + ": length is not below min"
+        if lens is not None and e.min_length is not lens[1]:
+            return name + ": min_length is not the declared min len"
+    elif isinstance(e, VE.MaxLengthValidationError):
+        if not (len(sub) > e.max_length):
+            return name + ": length is not above max"
+        if lens is not None and e.max_length is not lens[2]:
+            return name + ": max_length is not the declared max len"
+    elif isinstance(e, VE.AlphabetValidationError):
+        bad = False
+        for ch in sub:
+            if ch not in e.alphabet:
+                bad = True
+        if not bad:
+            return name + ": every character is in the alphabet"
+        if node is not None and (node[0] != "str" or e.alphabet is not node[3]):
+            return name + ": alphabet is not the declared alphabet"
+    elif isinstance(e, VE.SubstrValidationError):
+        if e.substr in sub:
+            return name + ": substring is present"
+        if node is not None and (node[0] != "str" or e.substr is not node[4]):
+            return name + ": substr is not the declared substring"
+    elif isinstance(e, VE.RegexValidationError):
+        if re.search(e.pattern, sub) is not None:
+            return name + ": pattern matches"
+        if node is not None and (node[0] != "str" or e.pattern != node[5]):
+            return name + ": pattern is not the declared pattern"
+    elif isinstance(e, VE.MissingElementValidationError):
+        if not (isinstance(sub, list) and e.index >= len(sub) and e.index >= 0):
+            return name + ": element exists"
+    elif isinstance(e, VE.ExtraElementValidationError):
+        if not (isinstance(sub, list) and 0 <= e.index < len(sub)):
+            return name + ": no such element"
+        if node is not None and node[0] == "list_e" and not (e.index >= len(node[1])):
+            return name + ": index is a declared position"
+    elif isinstance(e, VE.MissingKeyValidationError):
+        if not isinstance(sub, dict) or e.missing_key in sub:
+            return name + ": key is present"
+        if node is not None and node[0] == "dict" and node[1] is not None:
+            found = False
+            for key, opt, sp in node[1]:
+                if key == e.missing_key and not opt:
+                    found = True
+            if not found:
+                return name + ": key is not a required key"
+    elif isinstance(e, VE.ExtraKeyValidationError):
+        if not isinstance(sub, dict) or e.extra_key not in sub:
+            return name + ": key is absent"
+        if node is not None and node[0] == "dict" and node[1] is not None:
+            if node[2]:
+                return name + ": dict is relaxed"
+            for key, opt, sp in node[1]:
+                if key == e.extra_key:
+                    return name + ": key is declared"
+    elif isinstance(e, VE.SchemaMismatchValidationError):
+        for alt in e.expected_schemas:
+            if not validate(alt, sub).has_errors():
+                return name + ": an alternative accepts the value"
+    elif isinstance(e, VE.InvalidUUIDVersionValidationError):
+        if not (isinstance(sub, UUID) and sub.version == e.actual_version
+                and e.actual_version != e.expected_version and e.expected_version == 4):
+            return name + ": version fields are wrong"
+    else:
+        return name + ": unknown error kind"
+    # a leaf-level error implies the governing node rejects the sub-value
+    if node is not None and conforms(node, sub):
+        return name + ": the sub-value conforms to the schema at that position"
+    # ---- rendering
+    if fmt is not None:
+        msg = e.format(fmt)
+        if not isinstance(msg, str) or len(msg) == 0:
+            return name + ": empty message"
+        rp = render_path(e.path)
+        if isinstance(e, VE.MissingKeyValidationError):
+            want = "Key " + rp + "[%r]" % (e.missing_key,)
+        elif isinstance(e, VE.MissingElementValidationError):
+            want = "Element " + rp + "[%r]" % (e.index,)
+        elif len(steps) > 0:
+            want = " at " + rp + " "
+        else:
+            want = ""
+            if " at _" in msg:
+                return name + ": message names a path for a root error"
+        if isinstance(e, (VE.ExtraKeyValidationError, VE.ExtraElementValidationError)) and len(steps) > 0:
+            want = " at " + rp + " contains"
+        if want not in msg:
+            return name + ": message does not name the path"
+    return ""
+
+
+_FMT = Formatter()
+
+
+def errors_problem(spec, root, result):
+    for e in result.get_errors():
+        why = error_problem(spec, root, e, _FMT)
+        if why:
+            return why
+    return ""
+
+
+_SUBST_VALIDATOR = SubstitutorValidator()
+
+
+def validate_subst(S, v):
+    """The validator used inside substitution (a Validator subclass)."""
+    return S.__accept__(_SUBST_VALIDATOR, value=v)
